@@ -64,6 +64,7 @@ class Ctx:
                 raise AnalysisError("model %s: constructor no longer stores parameter %s" % (key, cname))
         if "gamma" in self.spec["consts"]:
             self.alg.gamma = self.alg.by_name["gamma"]
+            self.alg.ranges["gamma"] = (1.05, 2.0)     # statement: gamma in (1, 2]
         if key == "nozzle":
             attrs["geomterm"] = self.alg.sym("G")
             attrs["_xc"] = self.alg.sym("xc")
